@@ -5,6 +5,7 @@ import Sourcer.Gen
 import Sourcer.Peg
 import Sourcer.Prepare
 import Sourcer.Run
+import Sourcer.Api
 /-
   Decoding of protocol terms into model values (driver side only).
 -/
@@ -81,7 +82,10 @@ partial def decodeExpr : Sexp → Option Expr
   | .list (.atom "longest" :: xs) => (xs.mapM decodeExpr).map .longest
   | .list [.atom "backtrack", n] => n.nat?.map .backtrack
   | .atom "fail" => some .fail
-  | .list [.atom "py", v] => (decodeVal v).map .py
+  | .list [.atom "py", .atom "N"] => some (.py .none)
+  | .list [.atom "py", .atom "T"] => some (.py (.bool true))
+  | .list [.atom "py", .atom "F"] => some (.py (.bool false))
+  | .list [.atom "py", .list [.atom "i", x]] => x.int?.map fun i => .py (.int i)
   | _ => none
 
 def b01 (b : Bool) : String := if b then "1" else "0"
@@ -115,7 +119,7 @@ partial def encodeExpr : Expr → String
   | .longest xs => "(longest" ++ encodeList xs ++ ")"
   | .backtrack n => s!"(backtrack {n})"
   | .fail => "fail"
-  | .py v => s!"(py {v.print})"
+  | .py c => s!"(py {c.toVal.print})"
 partial def encodeList (xs : List Expr) : String :=
   String.join (xs.map fun x => " " ++ encodeExpr x)
 end
@@ -135,6 +139,18 @@ def printRes (r : Option Res) : String :=
   | none => "U"
   | some (.ok v p) => s!"(S {v.print} {p})"
   | some .fail => "F"
+
+def printOutcome : Outcome → String
+  | .value v => s!"(V {v.print})"
+  | .partialParse v i => s!"(P {v.print} {i})"
+  | .parseError i => s!"(E {i})"
+  | .indexError => "(X IndexError)"
+
+/-- the outcome the specification dictates (C08): `none` = meaning undefined -/
+def specOutcome (len : Nat) (full : Bool) : Option Res → String
+  | none => "U"
+  | some .fail => "(E -)"
+  | some (.ok v p) => printOutcome (parseApi len full ⟨true, v, p⟩)
 
 def printFlags (f : Flags) : String := s!"{boolIdx f.as}{boolIdx f.cps}"
 
